@@ -20,6 +20,7 @@ import (
 // The protobuf runtime registration of the generated message types (reflection, unsafe) is not needed by the
 // handlers: the message structs are used as plain Go values.
 //verif:stub github.com/nuts-foundation/nuts-node/network/transport/v2.file_transport_v2_protocol_proto_init => noop
+//verif:stub github.com/nuts-foundation/nuts-node/network/transport/grpc.file_transport_grpc_testprotocol_proto_init => noop
 
 // ---------------------------------------------------------------------------------------------
 // Fakes shared by the C15 and C07 harnesses of this package.
@@ -129,11 +130,22 @@ func (s *hState) FindBetweenLC(_ context.Context, start, end uint32) ([]dag.Tran
 	if s.findFails {
 		return nil, errHStorage
 	}
-	var out []dag.Transaction
+	// contract of dag.State.FindBetweenLC: the transactions with start <= clock < end, ordered by clock
+	var sel []*hTx
 	for _, t := range s.txs {
 		if t.clock >= start && t.clock < end {
-			out = append(out, t)
+			i := len(sel)
+			sel = append(sel, t)
+			for i > 0 && sel[i-1].clock > t.clock {
+				sel[i] = sel[i-1]
+				i--
+			}
+			sel[i] = t
 		}
+	}
+	var out []dag.Transaction
+	for _, t := range sel {
+		out = append(out, t)
 	}
 	return out, nil
 }
@@ -220,9 +232,18 @@ func hRefBytes(h hash.SHA256Hash, shape int) []byte {
 // PAL model
 // ---------------------------------------------------------------------------------------------
 
-var hPoolIDs = []string{"did:nuts:a", "did:nuts:b", "did:nuts:c"}
+// Participant pool: did:nuts:a, did:nuts:b, did:nuts:c. Peer and node DIDs are did:nuts:<one symbolic byte>,
+// so they range over the pool members and over every DID outside the pool.
+func hPoolID(i int) string { return "did:nuts:" + string(rune('a'+i)) }
 
-func hDID(i int) did.DID { return did.DID{Method: "nuts", ID: hPoolIDs[i][9:], DecodedID: hPoolIDs[i][9:]} }
+func hDID(i int) did.DID {
+	return did.DID{Method: "nuts", ID: string(rune('a' + i)), DecodedID: string(rune('a' + i))}
+}
+
+func hSymDID() did.DID {
+	id := vString(1)
+	return did.DID{Method: "nuts", ID: id, DecodedID: id}
+}
 
 // hResolver resolves only the node DID, to a document with the configured key agreement key ids.
 type hResolver struct {
@@ -269,6 +290,8 @@ func (d *hDecrypter) Decrypt(_ context.Context, kid string, ct []byte) ([]byte, 
 	j := 0
 	if strings.HasSuffix(kid, "#k2") {
 		j = 1
+	} else if strings.HasSuffix(kid, "#k3") {
+		j = 2
 	}
 	switch d.m[int(ct[0])][j] {
 	case hDecKeyMissing:
@@ -295,10 +318,10 @@ func hDecMatrix(npal, nkids int) (m [][]int, couldDecrypt, anyMissing bool) {
 	return
 }
 
-// hPlaintext draws the participant list the author of the transaction encrypted: any subset of the pool in
-// pool order (the author is untrusted: the list need not contain the node that can decrypt it), or - shape 1 -
-// a plaintext that is not a list of DIDs, or - shape 2 - an empty plaintext.
-func hPlaintext() (list []did.DID, plaintext []byte, wellFormed bool) {
+// hPlaintext draws the participant list the author of the transaction encrypted: any non-empty subset of the
+// first `pool` pool members in pool order (the author is untrusted: the list need not contain the node that can
+// decrypt it), or a plaintext that is not a list of DIDs, or an empty plaintext.
+func hPlaintext(pool int) (list []did.DID, plaintext []byte, wellFormed bool) {
 	switch vChoice(3) {
 	case 1:
 		return nil, []byte("did:nuts:a\nnot a did"), false
@@ -306,10 +329,10 @@ func hPlaintext() (list []did.DID, plaintext []byte, wellFormed bool) {
 		return nil, []byte{}, false
 	}
 	var parts []string
-	for i := range hPoolIDs {
-		if vBool() {
+	for i := 0; i < pool; i++ {
+		if vChoice(2) == 1 {
 			list = append(list, hDID(i))
-			parts = append(parts, hPoolIDs[i])
+			parts = append(parts, hPoolID(i))
 		}
 	}
 	if len(parts) == 0 {
@@ -328,17 +351,13 @@ func hListContains(list []did.DID, d did.DID) bool {
 	return false
 }
 
-// hPeer draws the peer of the connection: pool member, a DID outside the pool, or no DID; with the
-// authenticated flag arbitrary (an unauthenticated peer may claim any DID - that is the point).
+// hPeer draws the peer of the connection: did:nuts:<any byte> or no DID, with the authenticated flag arbitrary
+// (an unauthenticated peer may claim any DID - that is the point).
 func hPeer() transport.Peer {
 	p := transport.Peer{ID: "peer", Address: "addr"}
-	switch c := vChoice(5); c {
-	case 3:
-		p.NodeDID = did.DID{Method: "nuts", ID: "z", DecodedID: "z"}
-	case 4:
-		// no DID
-	default:
-		p.NodeDID = hDID(c)
+	if vChoice(2) == 1 {
+		vTag("peerDID")
+		p.NodeDID = hSymDID()
 	}
 	vTag("authenticated")
 	p.Authenticated = vBool()
@@ -346,6 +365,8 @@ func hPeer() transport.Peer {
 	vAssume(!p.Authenticated || !p.NodeDID.Empty())
 	return p
 }
+
+var hKidNames = []string{"k1", "k2", "k3"}
 
 // ---------------------------------------------------------------------------------------------
 // H15a handleTransactionPayloadQuery
@@ -355,50 +376,64 @@ func H15a() {
 	hb := vParam("hb15", 1)
 	ctx := context.Background()
 
-	// the DAG: one transaction, public or private (1..npal ciphertexts), payload present or not
+	// Two scenario families keep the product of concretised choices small:
+	// rich  - the stored private transaction is queried with a well-shaped reference; everything about the
+	//         participant list, keys, node and peer varies;
+	// plain - reference shape, unknown references, storage failure and public transactions vary, the
+	//         participant list is fixed.
+	rich := vChoice(2) == 1
 	tx := &hTx{ref: hHash(hb), payloadHash: hHash(1)}
-	npal := vLen(0, vParam("npal", 2))
+	st := &hState{txs: []*hTx{tx}}
+	var npal, nkids, shape int
+	nodeSet := true
+	nodeDID := hDID(0)
+	qref := hHash(hb)
+	var list []did.DID
+	var plaintext []byte
+	var wellFormed bool
+	if rich {
+		vCover("rich")
+		npal = vLen(1, vParam("npal", 2))
+		nkids = vLen(0, vParam("nkids", 2))
+		nodeSet = vChoice(2) == 1
+		if nodeSet {
+			vTag("nodeDID")
+			nodeDID = hSymDID()
+		} else {
+			nodeDID = did.DID{}
+		}
+		list, plaintext, wellFormed = hPlaintext(vParam("pool", 2))
+		shape = 3
+		vAssume(qref == tx.ref)
+	} else {
+		npal = vLen(0, 1)
+		nkids = 1
+		list, plaintext, wellFormed = []did.DID{hDID(0), hDID(1)}, []byte("did:nuts:a\ndid:nuts:b"), true
+		shape = vChoice(4)
+		vTag("getFails")
+		st.getFails = vBool()
+	}
 	for i := 0; i < npal; i++ {
 		tx.pal = append(tx.pal, []byte{byte(i), vU8()})
 	}
-	st := &hState{txs: []*hTx{tx}}
 	payload := []byte{vU8(), 7}
+	vTag("payloadPresent")
 	payloadPresent := vBool()
 	if payloadPresent {
 		st.payloads = []hPayload{{hash: tx.payloadHash, data: payload}}
 	}
-	vTag("getFails")
-	st.getFails = vBool()
 	vTag("readFails")
 	st.readFails = vBool()
-
-	// own node
-	nodeSet := vBool()
-	var nodeDID did.DID
-	if nodeSet {
-		nodeDID = hDID(vChoice(2))
-	}
-	nkids := vLen(0, vParam("nkids", 2))
-	res := &hResolver{node: nodeDID, kids: []string{"k1", "k2"}[:nkids]}
+	res := &hResolver{node: nodeDID, kids: hKidNames[:nkids]}
 	vTag("resolveFails")
 	res.fails = vBool()
-
-	// the participant list as encrypted by the (untrusted) author, and the key store's behaviour
-	list, plaintext, wellFormed := hPlaintext()
 	m, couldDecrypt, anyMissing := hDecMatrix(npal, nkids)
 	dec := &hDecrypter{plaintext: plaintext, m: m}
-
 	peer := hPeer()
 	conn := &hConn{peer: peer}
-	if vBool() {
-		conn.sendErr = errors.New("harness: send failed")
-	}
-
 	p := &protocol{state: st, nodeDID: nodeDID, didResolver: res, decrypter: dec, ctx: ctx}
 
-	// the query: the stored transaction's ref or any other, in any wire shape
-	qref := hHash(hb)
-	shape := vChoice(4)
+	// the query, in any wire shape
 	msg := &TransactionPayloadQuery{ConversationID: vBytes(1), TransactionRef: hRefBytes(qref, shape)}
 	err := p.handleTransactionPayloadQuery(ctx, conn, &Envelope{Message: &Envelope_TransactionPayloadQuery{TransactionPayloadQuery: msg}})
 
@@ -426,9 +461,12 @@ func H15a() {
 				vAssert(peer.Authenticated, "H15a.private_needs_authenticated_peer: private payload sent over an unauthenticated connection")
 				vAssert(wellFormed && hListContains(list, peer.NodeDID), "H15a.private_needs_listed_peer: private payload sent to a peer whose node DID is not on the decrypted participant list")
 				vAssert(ownDecrypt, "H15a.private_needs_own_decryption: private payload sent by a node that cannot decrypt the participant list with a key agreement key of its own node DID")
-				vAssert(mayServe, "H15a.private_payload_guard: private payload sent although the peer is not entitled to it")
 				for _, k := range dec.kids {
-					vAssert(k == nodeDID.String()+"#k1" || k == nodeDID.String()+"#k2", "H15a.only_own_keys_tried: decryption attempted with a key that is not a key agreement key of the node DID")
+					own := false
+					for _, n := range hKidNames[:nkids] {
+						own = own || k == nodeDID.String()+"#"+n
+					}
+					vAssert(own, "H15a.only_own_keys_tried: decryption attempted with a key that is not a key agreement key of the node DID")
 				}
 			} else {
 				vCover("public-payload-sent")
@@ -448,7 +486,7 @@ func H15a() {
 			vCover("payload-missing-locally")
 		}
 	} else {
-		vAssert(err == conn.sendErr, "H15a.send_result_returned: handler does not return the send result")
+		vAssert(err == nil, "H15a.send_result_returned: response sent but an error returned")
 	}
 	// converse (no over-blocking): an entitled peer gets the payload when it is there
 	if found && mustServe && payloadPresent && !st.readFails {
@@ -456,6 +494,10 @@ func H15a() {
 			vCover("entitled-peer")
 		}
 		vAssert(dataSent, "H15a.entitled_peer_served: an entitled peer was refused the payload")
+	}
+	if private && found && !mayServe {
+		vCover("not-entitled")
+		vAssert(len(conn.sent) == 1 && !dataSent, "H15a.not_entitled_gets_empty: a peer that is not entitled did not get the empty response")
 	}
 	if !found && !st.getFails {
 		vCover("unknown-tx")
@@ -476,5 +518,334 @@ func H15a_twin() {
 	_ = p.handleTransactionPayloadQuery(ctx, conn, &Envelope{Message: &Envelope_TransactionPayloadQuery{TransactionPayloadQuery: msg}})
 	if len(conn.sent) == 1 && len(conn.sent[0].GetTransactionPayload().Data) > 0 {
 		vAssert(false, "H15a_twin.reach: reachable")
+	}
+}
+
+// ---------------------------------------------------------------------------------------------
+// H15b collectTransactionList, directly and through the list-query and range-query handlers
+// ---------------------------------------------------------------------------------------------
+
+// hTxList builds n stored transactions: element i has data {i, sym}, a symbolic clock below 4 (duplicates
+// allowed), is public or private, and its payload is present or not.
+func hTxList(st *hState, n, hb int) (present []bool) {
+	for i := 0; i < n; i++ {
+		tx := &hTx{ref: hHash(hb), payloadHash: hash.SHA256Hash{byte(i + 1), vU8()}, data: []byte{byte(i), vU8()}}
+		tx.ref[31] = byte(i + 1) // distinct transactions have distinct references
+		tx.clock = uint32(vRange(0, 3))
+		if vChoice(2) == 1 {
+			tx.pal = [][]byte{{byte(i), vU8()}}
+		}
+		st.txs = append(st.txs, tx)
+		vTag("payloadPresent")
+		pp := vBool()
+		present = append(present, pp)
+		if pp {
+			st.payloads = append(st.payloads, hPayload{hash: tx.payloadHash, data: []byte{byte(0x80 + i), vU8()}})
+		}
+	}
+	return
+}
+
+func hStoredPayload(st *hState, tx *hTx) []byte {
+	for _, p := range st.payloads {
+		if p.hash == tx.payloadHash {
+			return p.data
+		}
+	}
+	return nil
+}
+
+// hCheckNetworkTx is the C15 claim for one element of an outgoing transaction list.
+func hCheckNetworkTx(id string, st *hState, ntx *Transaction) {
+	vAssert(len(ntx.Data) == 2 && int(ntx.Data[0]) < len(st.txs), id+".element_is_stored_tx: list element is not a stored transaction")
+	tx := st.txs[int(ntx.Data[0])]
+	vAssert(string(ntx.Data) == string(tx.data), id+".element_data: list element data differs from the stored transaction")
+	if len(tx.pal) > 0 {
+		vCover("private-element")
+		vAssert(len(ntx.Payload) == 0, id+".private_payload_not_listed: a transaction list element with a participant list carries a payload")
+	} else {
+		vCover("public-element")
+		vAssert(string(ntx.Payload) == string(hStoredPayload(st, tx)) && len(ntx.Payload) > 0, id+".public_payload_listed: public transaction listed without its stored payload")
+	}
+}
+
+func H15b() {
+	hb := vParam("hb15", 1)
+	ctx := context.Background()
+	n := vLen(0, vParam("n15b", 2))
+	st := &hState{}
+	present := hTxList(st, n, hb)
+	vTag("readFails")
+	st.readFails = vBool()
+	conn := &hConn{peer: hPeer()}
+	p := &protocol{state: st, ctx: ctx, cMan: newConversationManager(maxValidity)}
+	p.sender = p
+
+	mode := vChoice(3)
+	var err error
+	var elements []*Transaction
+	var input []*hTx // the transactions the answer is about
+	switch mode {
+	case 0:
+		vCover("direct")
+		var in []dag.Transaction
+		for _, t := range st.txs {
+			in = append(in, t)
+			input = append(input, t)
+		}
+		elements, err = p.collectTransactionList(ctx, in)
+		if err == nil {
+			vAssert(len(elements) == n, "H15b.direct_length: result length differs from input length")
+			for i, e := range elements {
+				vAssert(int(e.Data[0]) == i, "H15b.direct_order: result order differs from input order")
+			}
+		}
+	case 1:
+		vCover("list-query")
+		// the peer asks for each stored transaction or not, plus possibly an unknown reference
+		var refs [][]byte
+		for _, t := range st.txs {
+			if vChoice(2) == 1 {
+				refs = append(refs, hRefBytes(t.ref, 3))
+				input = append(input, t)
+			}
+		}
+		if vChoice(2) == 1 {
+			u := hHash(hb) // last byte 0: unknown
+			refs = append(refs, hRefBytes(u, vChoice(4)))
+		}
+		msg := &TransactionListQuery{ConversationID: vBytes(1), Refs: refs}
+		err = p.handleTransactionListQuery(ctx, conn, &Envelope{Message: &Envelope_TransactionListQuery{TransactionListQuery: msg}})
+	case 2:
+		vCover("range-query")
+		start, end := uint32(vRange(0, 4)), uint32(vRange(0, 5))
+		for _, t := range st.txs {
+			if t.clock >= start && t.clock < end {
+				input = append(input, t)
+			}
+		}
+		msg := &TransactionRangeQuery{ConversationID: vBytes(1), Start: start, End: end}
+		err = p.handleTransactionRangeQuery(ctx, conn, &Envelope{Message: &Envelope_TransactionRangeQuery{TransactionRangeQuery: msg}})
+		if start >= end {
+			vAssert(err != nil && len(conn.sent) == 0, "H15b.empty_range_rejected: empty range answered")
+			return
+		}
+	}
+	if mode != 0 {
+		for _, e := range conn.sent {
+			l := e.GetTransactionList()
+			vAssert(l != nil, "H15b.response_type: answer is not a TransactionList")
+			elements = append(elements, l.Transactions...)
+		}
+	}
+	for _, e := range elements {
+		hCheckNetworkTx("H15b", st, e)
+	}
+	// the answer fails exactly when a public payload cannot be read; otherwise it is complete and ordered by clock
+	unreadable := false
+	for _, t := range input {
+		if len(t.pal) == 0 && (st.readFails || !present[int(t.data[0])]) {
+			unreadable = true
+		}
+	}
+	if unreadable {
+		vCover("payload-unreadable")
+		vAssert(err != nil && len(elements) == 0, "H15b.unreadable_fails: a transaction list was produced although a public payload could not be read")
+	} else {
+		vAssert(err == nil, "H15b.readable_succeeds: producing the transaction list failed without a storage failure")
+		vAssert(len(elements) == len(input), "H15b.complete: the answer does not contain exactly the requested stored transactions")
+		for _, t := range input {
+			c := 0
+			for _, e := range elements {
+				if e.Data[0] == t.data[0] {
+					c++
+				}
+			}
+			vAssert(c == 1, "H15b.each_once: a requested stored transaction is missing from or duplicated in the answer")
+		}
+		if mode != 0 {
+			for i := 0; i+1 < len(elements); i++ {
+				vAssert(st.txs[int(elements[i].Data[0])].clock <= st.txs[int(elements[i+1].Data[0])].clock, "H15b.clock_order: answer is not ordered by clock")
+			}
+		}
+	}
+}
+
+func H15b_twin() {
+	ctx := context.Background()
+	st := &hState{}
+	hTxList(st, 2, 1)
+	p := &protocol{state: st, ctx: ctx}
+	res, err := p.collectTransactionList(ctx, []dag.Transaction{st.txs[0], st.txs[1]})
+	if err == nil && len(res) == 2 && len(res[0].Payload) == 0 && len(res[1].Payload) > 0 {
+		vAssert(false, "H15b_twin.reach: reachable")
+	}
+}
+
+// ---------------------------------------------------------------------------------------------
+// H15c handleTransactionPayload
+// ---------------------------------------------------------------------------------------------
+
+func H15c() {
+	hb := vParam("hb15", 1)
+	ctx := context.Background()
+	ntx := vLen(0, vParam("n15c", 2))
+	st := &hState{}
+	for i := 0; i < ntx; i++ {
+		tx := &hTx{ref: hHash(hb), payloadHash: hHash(32), data: []byte{byte(i)}}
+		tx.ref[31] = byte(i + 1)
+		if vChoice(2) == 1 {
+			tx.pal = [][]byte{{byte(i)}}
+		}
+		st.txs = append(st.txs, tx)
+	}
+	vTag("getFails")
+	st.getFails = vBool()
+	vTag("writeFails")
+	st.writeFails = vBool()
+	conn := &hConn{peer: hPeer()}
+	p := &protocol{state: st, ctx: ctx}
+	// the payload job queue exists only when the node DID is configured (protocol.Configure)
+	var jobs *hNotifier
+	if vChoice(2) == 1 {
+		jobs = &hNotifier{}
+		p.privatePayloadReceiver = jobs
+		p.nodeDID = hDID(0)
+	} else {
+		vClass("node DID not configured")
+	}
+
+	// the message: any reference (a stored one or not, any wire shape), any data of 0..dl bytes
+	ref := hHash(hb)
+	ref[31] = vU8()
+	shape := vChoice(4)
+	data := vBytes(vLen(0, vParam("dl15c", 2)))
+	msg := &TransactionPayload{ConversationID: vBytes(1), TransactionRef: hRefBytes(ref, shape), Data: data}
+	err := p.handleTransactionPayload(ctx, conn, &Envelope{Message: &Envelope_TransactionPayload{TransactionPayload: msg}})
+
+	// reference
+	wireRef := hash.FromSlice(msg.TransactionRef)
+	var target *hTx
+	for _, t := range st.txs {
+		if t.ref == wireRef {
+			target = t
+		}
+	}
+	vAssert(len(conn.sent) == 0, "H15c.no_answer: a received payload was answered with a message")
+	vAssert(len(st.writes) <= 1, "H15c.at_most_one_write: more than one payload written")
+	for _, w := range st.writes {
+		vCover("written")
+		vAssert(target != nil && w.tx == dag.Transaction(target), "H15c.tx_exists: payload stored for a transaction that is not in the DAG")
+		vAssert(target != nil && hash.SHA256Sum(data) == target.payloadHash, "H15c.hash_matches: stored payload does not hash to the payload hash of the referenced transaction")
+		vAssert(target != nil && w.hash == target.payloadHash, "H15c.stored_under_payload_hash: payload stored under a hash other than the transaction's payload hash")
+		vAssert(string(w.data) == string(data) && len(data) > 0, "H15c.stored_data_is_received_data: stored bytes differ from the received bytes")
+		vAssert(!wireRef.Empty(), "H15c.ref_required: payload stored for the empty reference")
+	}
+	if wireRef.Empty() || len(data) == 0 {
+		vCover("rejected-empty")
+		vAssert(err != nil && len(st.writes) == 0, "H15c.empty_rejected: message without reference or data was not rejected")
+	}
+	if target == nil && !st.getFails {
+		vCover("unknown-tx")
+		vAssert(err != nil && len(st.writes) == 0, "H15c.unknown_rejected: payload for an unknown transaction was not rejected")
+	}
+	if target != nil && len(data) > 0 && !st.getFails {
+		if hash.SHA256Sum(data) == target.payloadHash {
+			vCover("matching")
+			if !st.writeFails {
+				vAssert(len(st.writes) == 1, "H15c.matching_stored: a matching payload for a stored transaction was not stored")
+				if jobs != nil {
+					vAssert(len(jobs.finished) == 1 && jobs.finished[0] == target.ref && err == nil, "H15c.job_finished: payload job of the transaction was not marked finished")
+				}
+			} else {
+				vAssert(err != nil, "H15c.write_failure_reported: storage failure not reported")
+			}
+		} else {
+			vCover("mismatching")
+			vAssert(err != nil && len(st.writes) == 0, "H15c.mismatch_rejected: payload with the wrong hash was not rejected")
+		}
+	}
+	if jobs != nil && len(st.writes) == 0 {
+		vAssert(len(jobs.finished) == 0, "H15c.job_kept: payload job finished although nothing was stored")
+	}
+}
+
+func H15c_twin() {
+	ctx := context.Background()
+	tx := &hTx{ref: hHash(1), payloadHash: hHash(32)}
+	tx.ref[31] = 1
+	st := &hState{txs: []*hTx{tx}}
+	p := &protocol{state: st, ctx: ctx, privatePayloadReceiver: &hNotifier{}}
+	msg := &TransactionPayload{TransactionRef: hRefBytes(tx.ref, 3), Data: vBytes(1)}
+	err := p.handleTransactionPayload(ctx, &hConn{}, &Envelope{Message: &Envelope_TransactionPayload{TransactionPayload: msg}})
+	if err == nil && len(st.writes) == 1 {
+		vAssert(false, "H15c_twin.reach: reachable")
+	}
+}
+
+// ---------------------------------------------------------------------------------------------
+// H15d dag.EncryptedPAL.Decrypt
+// ---------------------------------------------------------------------------------------------
+
+func H15d() {
+	ctx := context.Background()
+	npal := vLen(0, vParam("npald", 2))
+	nkids := vLen(0, vParam("nkidsd", 2))
+	var epal dag.EncryptedPAL
+	for i := 0; i < npal; i++ {
+		epal = append(epal, []byte{byte(i), vU8()})
+	}
+	var kids []string
+	for j := 0; j < nkids; j++ {
+		kids = append(kids, "did:nuts:a#"+hKidNames[j])
+	}
+	list, plaintext, wellFormed := hPlaintext(vParam("pool", 2))
+	m, couldDecrypt, anyMissing := hDecMatrix(npal, nkids)
+	dec := &hDecrypter{plaintext: plaintext, m: m}
+
+	pal, err := epal.Decrypt(ctx, kids, dec)
+
+	vAssert(dec.okCount <= 1, "H15d.stops_at_first_success: decryption continued after a success")
+	vAssert(len(dec.kids) <= npal*nkids, "H15d.bounded_attempts: more attempts than (ciphertext, key) pairs")
+	if err == nil && pal != nil {
+		vCover("decrypted")
+		vAssert(couldDecrypt && wellFormed, "H15d.list_needs_decryption: a participant list was returned although no key decrypts a ciphertext to a well-formed list")
+		vAssert(len(pal) == len(list), "H15d.list_equals_plaintext: returned list differs from the encrypted list")
+		for i := range pal {
+			if i < len(list) {
+				vAssert(pal[i].Method == list[i].Method && pal[i].ID == list[i].ID, "H15d.list_equals_plaintext: returned list differs from the encrypted list")
+			}
+		}
+	}
+	if err == nil && pal == nil {
+		vCover("not-for-us")
+		vAssert(!couldDecrypt || len(plaintext) == 0, "H15d.not_for_us_means_undecryptable: reported 'not for us' although a key decrypts a ciphertext")
+		vAssert(!anyMissing || couldDecrypt, "H15d.missing_key_is_error: a missing private key was reported as 'not for us'")
+	}
+	if err != nil {
+		vCover("error")
+		vAssert(pal == nil, "H15d.error_without_list: error returned together with a list")
+		vAssert(anyMissing || (couldDecrypt && !wellFormed && len(plaintext) > 0), "H15d.error_has_cause: error without a missing key or malformed list")
+	}
+	if couldDecrypt && !anyMissing {
+		if wellFormed {
+			vAssert(err == nil && pal != nil, "H15d.decryptable_is_decrypted: a decryptable well-formed list was not returned")
+		} else if len(plaintext) > 0 {
+			vCover("malformed")
+			vAssert(err != nil, "H15d.malformed_rejected: malformed participant list accepted")
+		}
+	}
+	if !couldDecrypt && anyMissing {
+		vCover("key-missing")
+		vAssert(err != nil, "H15d.missing_key_is_error: a missing private key was not reported")
+	}
+}
+
+func H15d_twin() {
+	m, _, _ := hDecMatrix(2, 1)
+	dec := &hDecrypter{plaintext: []byte("did:nuts:b"), m: m}
+	pal, err := dag.EncryptedPAL{{0}, {1}}.Decrypt(context.Background(), []string{"did:nuts:a#k1"}, dec)
+	if err == nil && len(pal) == 1 && len(dec.kids) == 2 {
+		vAssert(false, "H15d_twin.reach: reachable")
 	}
 }
